@@ -254,7 +254,7 @@ package value
 //@   safety C05
 
 // values that wrap compiled functions / lists satisfy the invariants of what they wrap
-//@ representation Closure: self.Func != nil && (self.Args >= 0 ==> fs(self.Func) == self.Args) && (self.Args < 0 ==> fs(self.Func) < 0 && fsmin(self.Func) <= 1) && cl(self.Func) == 0
+//@ representation Closure: self.Func != nil && (self.Args >= 0 ==> fs(self.Func) == self.Args) && (self.Args < 0 ==> fs(self.Func) < 0 && fsmin(self.Func) <= 0) && cl(self.Func) == 0
 //@ representation List: self.iterable != nil
 
 // ---------------------------------------------------------------- comparison operators (C14)
@@ -301,3 +301,15 @@ package value
 //@   ensures[error-iff] (result1 == nil) == (calcOK(less, b, a) && (asBool(calcV(less, b, a)) || calcOK(equal, a, b)))
 //@   ensures[greater-or-equal] result1 == nil ==> asBool(result0) == (asBool(calcV(less, b, a)) || asBool(calcV(equal, a, b)))
 //@   ensures[bool] result1 == nil ==> typeis(result0, Bool)
+
+// ---------------------------------------------------------------- C01: custom code generation (try/catch, short-circuit & and |)
+// every literal is compiled for the context it is generated in, like the literals of funcGen.GenerateFunc
+//@ func (fg *FunctionGenerator) GenerateCustom
+//@   property C01
+//@   safety C04
+//@   requires g != nil && ast != nil
+//@   ensures[compiled-for-context] result2 == nil && result0 != nil ==> fs(result0) == len(gc.am) && cl(result0) == len(gc.cm)
+//@   assigns any []string
+//@   closure-spec "error in getting catch function" as funcGen.ParserFunc attr fs(self) = len(gc.am), cl(self) = len(gc.cm)
+//@   closure-spec "if !a {" as funcGen.ParserFunc attr fs(self) = len(gc.am), cl(self) = len(gc.cm)
+//@   closure-spec "if a {" as funcGen.ParserFunc attr fs(self) = len(gc.am), cl(self) = len(gc.cm)
